@@ -38,14 +38,45 @@ def r181(chk, m):
                 'the merge must iterate over sorted(userdata[index]): %s' % [text(a.value) for a in asg], chk.where(fn))
     lt = m.func(MOD, 'IndexEntry.__lt__')
     chk.analysed(lt)
-    src = text(lt.node)
-    ok = src.count('collator(x) for x in') == 2 and 'self.sortkey' in src and 'other.sortkey' in src and \
-        'collator(x.textContent) for x in self.key' in src and 'collator(x.textContent) for x in other.key' in src
-    rets = [(text(n.test), [text(s) for s in n.body]) for n in M.walk_no_nested(lt.node) if isinstance(n, ast.If)]
-    ok2 = ('key_self < key_other', ['return True']) in rets and ('key_self > key_other', ['return False']) in rets and \
-        'return len(self.key) < len(other.key)' in src
-    chk.verdict(R, 'IndexEntry.__lt__ compares collation keys, then length', ok and ok2,
-                '__lt__ must compare (collation of sort keys, collation of display text) and fall back to the number of levels: %s' % rets, chk.where(lt))
+    IE = m.cls(MOD, 'IndexEntry')
+
+    class LH(A.Hooks):
+        cls = IE
+
+        def keep(self, ev):
+            return False
+
+        def call(self, interp, node, fname, args, kwargs, state):
+            if fname == 'collator' and len(args) == 1 and isinstance(args[0], str):
+                return args[0].lower()
+            return None
+    keyobj = {}
+
+    def ent(path, texts=None):
+        keys = []
+        for i, k in enumerate(path):
+            t = (texts or path)[i]
+            keys.append(keyobj.setdefault((k, t), A.Obj('key:%s/%s' % (k, t), {'textContent': t})))
+        return A.Obj('entry:%s' % '!'.join(path), {'key': keys, 'sortkey': list(path)}, cls=IE)
+    cases = [('a < b', ent(['a']), ent(['b']), True), ('b < a', ent(['b']), ent(['a']), False),
+             ('collation ignores case: B < a', ent(['B']), ent(['a']), False), ('collation ignores case: a < B', ent(['a']), ent(['B']), True),
+             ('equal sort keys: display text decides', ent(['s'], ['x']), ent(['s'], ['y']), True),
+             ('a prefix sorts before its extension', ent(['a']), ent(['a', 'b']), True), ('an extension sorts after its prefix', ent(['a', 'b']), ent(['a']), False),
+             ('second level decides', ent(['a', 'b']), ent(['a', 'c']), True)]
+    bad, und = [], []
+    for label, e1, e2, want in cases:
+        hk = LH()
+        hk.should_inline = A.private_only
+        it = A.Interp(model=m, scope=lt, hooks=hk, max_iter=6, exc_edges=False, inline=3, heap=True, precise_exc=True)
+        outs = it.run_function(lt, env={'self': e1, 'other': e2})
+        got = {(kind, v if isinstance(v, bool) else 'TOP') for kind, s2, v in outs}
+        if got != {('return', want)}:
+            (und if any('TOP' in map(str, g) for g in got) else bad).append('%s -> %s (expected %s)' % (label, sorted(got, key=repr), want))
+    msg = 'IndexEntry.__lt__ (collation = lower case): %s' % '; '.join(bad + und)
+    if und and not bad:
+        chk.undecided(R, 'IndexEntry.__lt__ compares collation keys, then length', msg, chk.where(lt))
+    else:
+        chk.verdict(R, 'IndexEntry.__lt__ compares collation keys, then length', not bad, msg, chk.where(lt), '%d orderings' % len(cases))
     mod = m.module(MOD)
     col = [text(e) for e in mod.assigns.get('collator', [])]
     chk.verdict(R, 'collation function', any('sort_key' in c for c in col) and any('lower()' in c for c in col),
@@ -145,8 +176,8 @@ def r182_groups(chk, m):
     fn = IU.properties.get('groups', {}).get('get') or m.find_method(IU, 'groups')
     need(fn is not None, 'IndexUtils.groups not found')
     chk.analysed(fn)
-    for label, keys, want in (('letters, underscore and symbols', ['apple', 'avocado', 'Banana', 'berry', '_x', '1abc', '?'],
-                               (('A', 'A', ('apple', 'avocado')), ('B', 'B', ('Banana', 'berry')), ('_ (Underscore)', '_', ('_x',)), ('Symbols', 'Symbols', ('1abc', '?')))),
+    for label, keys, want in (('letters, underscore and symbols', ['apple', 'avocado', 'Banana', 'berry', '_x', '_y', '1abc', '?'],
+                               (('A', 'A', ('apple', 'avocado')), ('B', 'B', ('Banana', 'berry')), ('_ (Underscore)', '_', ('_x', '_y')), ('Symbols', 'Symbols', ('1abc', '?')))),
                               ('a single initial', ['x1', 'x2', 'x3'], (('X', 'X', ('x1', 'x2', 'x3')),)),
                               ('an empty sort key', ['', 'a'], (('Symbols', 'Symbols', ('',)), ('A', 'A', ('a',))))):
         d = D.Dom(m)
@@ -271,8 +302,41 @@ class IdxHooks(SelfHooks):
     def call(self, interp, node, fname, args, kwargs, state):
         if fname == 'iter':
             return A.Sym('entryiter')
-        if fname == 'Command.invoke':
-            return None
+        if fname in ('Command.invoke', 'super().invoke'):
+            return A.Sym('RESULT')
+        if fname == 'next' and args and isinstance(args[0], A.Sym) and args[0].label == 'entryiter':
+            pos = state.env.get('__pos', 0)
+            if pos >= len(self.toks):
+                if len(args) > 1:
+                    return A.NONE if args[1] is None else args[1]
+                state.env['__exc'] = 'StopIteration'
+                return A.TOP
+            state.env['__pos'] = pos + 1
+            return self.toks[pos]
+        if fname in ('itertools.islice', 'islice') and len(args) == 2 and isinstance(args[0], A.Sym) and args[0].label == 'entryiter' and isinstance(args[1], int):
+            out = []
+            for _ in range(args[1]):
+                pos = state.env.get('__pos', 0)
+                if pos >= len(self.toks):
+                    break
+                state.env['__pos'] = pos + 1
+                out.append(self.toks[pos])
+            return out
+        if fname == 'tex.expandTokens' and len(args) == 1 and isinstance(args[0], list):
+            labs = tuple(x.label if isinstance(x, A.Sym) else (x.cls.name if isinstance(x, A.Inst) else repr(x)) for x in args[0])
+            return A.Obj('frag', {'tokens': labs, 'textContent': labs})
+        if fname == 'IndexEntry' and len(args) >= 3:
+            def toks(x):
+                if isinstance(x, A.Obj):
+                    return list(x.attrs.get('tokens', ('TOP',)))
+                if isinstance(x, (tuple, list)):
+                    return [y.label if isinstance(y, A.Sym) else (y if isinstance(y, str) else repr(y)) for y in x]
+                return None if x is None else ['TOP']
+            key = [toks(k) for k in args[0]] if isinstance(args[0], list) else 'TOP'
+            sk = [toks(k) for k in args[2]] if isinstance(args[2], list) else 'TOP'
+            fmt = toks(args[3]) if len(args) > 3 else None
+            state.env['__entry'] = state.env.get('__entry', ()) + (repr((key, sk, [t for t in (fmt or []) if t != 'EscapeSequence'])),)
+            return A.Sym('ENTRYOBJ', truthy=True)
         return None
 
     def lookup(self, interp, name, state):
@@ -305,35 +369,37 @@ class IdxHooks(SelfHooks):
 def r183(chk, m):
     R = chk.rule('R18.3', 'entry parsing: ! closes a level, @ moves the collected text to the sort key of that level, | switches to '
                  'the page format, " quotes the next token - the key path and sort path computed by index.invoke equal the reference '
-                 'reading for every well-formed argument of up to 6 tokens (over token kinds)', 200)
+                 'reading for every well-formed argument of up to 4 tokens (quick) or 6 tokens (thorough), over token kinds', 100)
     cls = m.cls(MOD, 'index')
     fn = m.find_method(cls, 'invoke')
     chk.analysed(fn)
-    # analyse the parsing part only: statements before the sort keys are expanded
-    stop = next((i for i, s in enumerate(fn.node.body) if isinstance(s, ast.For) and 'enumerate(sortkey)' in text(s.iter)), None)
-    need(stop is not None, 'index.invoke: end of the parsing part not found')
-    stmts = fn.node.body[:stop]
     kinds = ['c', '!', '@', '|', 'q']
     chars = {'!': '!', '@': '@', '|': '|', 'q': '"'}
     n = bad = 0
     first = []
-    maxlen = 7 if chk.tier == 'thorough' else 5
+    undet = []
+    maxlen = 6 if chk.tier == 'thorough' else 5
     for L in range(1, maxlen + 1):
         for ks in itertools.product(kinds, repeat=L):
             seq = [(k, '%s%d' % (k, i)) for i, k in enumerate(ks)]
             ref = ref_parse(seq)
             if ref is None:
                 continue
+            if chk.tier != 'thorough' and L == 5 and ks.count('@') == 0:
+                continue      # quick tier: five-token arguments only when they carry a sort key
             n += 1
             toks = [A.Sym(lab, truthy=True, attrs={'catcode': 12, 'char': chars.get(k, 'x'), 'distinct': True}) for k, lab in seq]
-            it = A.Interp(model=m, scope=fn, hooks=IdxHooks(m, cls, toks), max_iter=12, exc_edges=False)
-            outs = it.block(stmts, [A.State({})])
+            hk = IdxHooks(m, cls, toks)
+            hk.should_inline = A.private_only
+            it = A.Interp(model=m, scope=fn, hooks=hk, max_iter=12, exc_edges=False, inline=2, precise_exc=True)
+            outs = it.run_function(fn, env={'tex': A.Sym('tex', truthy=True)})
+            if it.imprecise:
+                undet.append('%s: %s' % (''.join(chars.get(k, 'x') for k in ks), it.imprecise[0]))
+                continue
             got = set()
-            for kind in ('fall',):
-                for s, v in outs.get(kind, []):
-                    key, sk, fmt = s.env.get('key'), s.env.get('sortkey'), s.env.get('format')
-                    lab = lambda lst: [[x.label for x in lv] for lv in lst] if isinstance(lst, list) and all(isinstance(lv, list) for lv in lst) else repr(lst)
-                    got.add(repr((lab(key), lab(sk), [x.label for x in fmt] if isinstance(fmt, list) else repr(fmt))))
+            for kind, s, v in outs:
+                ent = s.env.get('__entry', ())
+                got.add(ent[0] if len(ent) == 1 and kind == 'return' else '%s with %d entries' % (kind, len(ent)))
             want = repr((ref[0], ref[1], ref[2] if ref[2] is not None else []))
             if got != {want}:
                 bad += 1
@@ -341,5 +407,9 @@ def r183(chk, m):
                     first.append('%s -> %s, expected %s' % (''.join(chars.get(k, 'x') for k in ks), sorted(got), want))
     chk.paths += n
     chk.rules[R]['n'] += n - 1
+    if undet and not bad:
+        chk.undecided(R, 'index.invoke agrees with the reference reading on %d arguments (<= %d tokens)' % (n, maxlen),
+                      '%d argument(s) could not be interpreted: %s' % (len(undet), undet[:3]), chk.where(fn))
+        return
     chk.verdict(R, 'index.invoke agrees with the reference reading on %d arguments (<= %d tokens)' % (n, maxlen), bad == 0,
                 '%d of %d arguments are read differently, e.g. %s' % (bad, n, '; '.join(first)), chk.where(fn), '%d arguments' % n)
